@@ -2187,6 +2187,10 @@ func (n *RegexNode) dump() string {
 // consumed. true is only valid when used as part of a search to determine where to try a full match, not as part of
 // actual matching logic.
 // consumeZeroWidthNodes = false
+// maxOrdinalCaseInsensitiveRepeat bounds the repeat count of a set repeater that
+// TryGetOrdinalCaseInsensitiveString is willing to expand into the string.
+const maxOrdinalCaseInsensitiveRepeat = 64
+
 func (n *RegexNode) TryGetOrdinalCaseInsensitiveString(childIndex int, exclusiveChildBound int, consumeZeroWidthNodes bool) (success bool, nodesConsumed int, caseInsensitiveString string) {
 	vsb := &strings.Builder{}
 
@@ -2228,6 +2232,10 @@ func (n *RegexNode) TryGetOrdinalCaseInsensitiveString(childIndex int, exclusive
 			count := child.M
 			if child.T == NtSet {
 				count = 1
+			}
+			// don't materialise huge repeaters such as [Aa]{2147483647}
+			if count > maxOrdinalCaseInsensitiveRepeat {
+				break
 			}
 			vsb.WriteString(strings.Repeat(string(twoChars[0]|0x20), count))
 		} else if child.T == NtEmpty {
